@@ -7,4 +7,4 @@ From CS Require Import Base.Prelude Model.Wal.
 Extraction Language OCaml.
 
 Extraction "../ocaml/gen/wal_model.ml" init step op_ok read_entries read_entries_after
-  load_flushed top_seq crc32 lenN in_i64.
+  load_flushed top_seq crc32 lenN in_i64 flush_ops ensure_wal_ops.
